@@ -340,6 +340,7 @@ fn check_cont(run: &Run, c: &Cont) {
             }
         }
     }
+    let mut seen: Vec<(f64, u64)> = Vec::with_capacity(pts.len());
     for &x in &pts {
         run.case();
         run.tr();
@@ -348,6 +349,7 @@ fn check_cont(run: &Run, c: &Cont) {
         let want = want_ln.exp();
         match guard(|| (c.pdf)(x)) {
             Ok(g) => {
+                seen.push((x, g.to_bits()));
                 if !(g >= 0.0) {
                     run.violate(&site("pdf/negative-or-nan"), || format!("{}({}).pdf({:e}) = {:e} (formula {:e})", law, c.params, x, g, want));
                 } else if want > 1e-150 && want < 1e150 && !((g - want).abs() <= c.tol * want) {
@@ -370,6 +372,16 @@ fn check_cont(run: &Run, c: &Cont) {
                 }
             }
             Err(p) => run.violate(&site("pdf/panic"), || format!("{}({}).pdf({:e}): {}", law, c.params, x, p)),
+        }
+    }
+    // the density is a function of its argument only: the same points in reverse order
+    for &(x, bits) in seen.iter().rev() {
+        run.tr();
+        if let Ok(g) = guard(|| (c.pdf)(x)) {
+            if g.to_bits() != bits && !(g.is_nan() && f64::from_bits(bits).is_nan()) {
+                run.violate(&site("pdf/depends-on-evaluation-order"), || format!("{}({}).pdf({:e}) = {:e} in reverse order, {:e} in the first pass", law, c.params, x, g, f64::from_bits(bits)));
+                break;
+            }
         }
     }
     for &x in &outside {
@@ -551,6 +563,41 @@ fn check_disc(run: &Run, d: &Disc) {
                 run.violate(&format!("{}/pmf/{}/{}", law, cls, d.cls), || format!("{}({}).pmf({}): {}", law, d.params, k, p));
             }
         }
+    }
+    // the mass function is a function of its argument only: the same counts in descending order, in a
+    // stride-permuted order and each right after its upper neighbour must give the same values
+    if usable && !vals.is_empty() {
+        let lookup: std::collections::HashMap<i64, f64> = vals.iter().cloned().collect();
+        let ks: Vec<i64> = vals.iter().map(|(k, _)| *k).collect();
+        let n = ks.len();
+        let mut orders: Vec<(&str, Vec<i64>)> = vec![("descending", ks.iter().rev().cloned().collect())];
+        let stride = [7usize, 11, 13, 17, 19, 23].iter().cloned().find(|s| n % s != 0).unwrap_or(1);
+        orders.push(("stride-permuted", (0..n).map(|i| ks[(i * stride) % n]).collect()));
+        let mut zig = Vec::with_capacity(2 * n);
+        for w in ks.windows(2) {
+            zig.push(w[1]);
+            zig.push(w[0]);
+        }
+        orders.push(("each count after its upper neighbour", zig));
+        for (oname, order) in orders {
+            for k in order {
+                run.tr();
+                let want = lookup[&k];
+                match guard(|| (d.pmf)(k)) {
+                    Ok(g) => {
+                        if g.to_bits() != want.to_bits() && !((g - want).abs() <= 1e-12 * want) {
+                            run.violate(&format!("{}/pmf/depends-on-evaluation-order", law), || format!("{}({}).pmf({}) = {:e} when evaluated in {} order, {:e} in ascending order", law, d.params, k, g, oname, want));
+                            break;
+                        }
+                    }
+                    Err(p) => {
+                        run.violate(&format!("{}/pmf/panic/{}", law, d.cls), || format!("{}({}).pmf({}) in {} order: {}", law, d.params, k, oname, p));
+                        break;
+                    }
+                }
+            }
+        }
+        run.regime("pmf-evaluation-orders");
     }
     if usable {
         // exhaustive summation over the support: total mass and the first two moments of that same function
